@@ -63,5 +63,6 @@ def main (args : List String) : IO UInt32 := do
   | ["fifo"] => loopState stdin stdout Drv.Misc.fStep (SV.Fifo.Cache.init 2 1); return 0
   | ["timecache"] => loopState stdin stdout Drv.Misc.tStep {}; return 0
   | ["concp"] => loopState stdin stdout Drv.Conc.step {}; return 0
+  | ["crash"] => loopState stdin stdout Drv.Crash.step {}; return 0
   | ["shard"] => loopStateless stdin stdout shardStep; return 0
   | _ => IO.eprintln "usage: svdriver <component>"; return 2
